@@ -18,6 +18,7 @@
 # OUT OF OR IN CONNECTION WITH THE SOFTWARE OR THE USE OR OTHER DEALINGS IN THE
 # SOFTWARE.
 
+import copy
 import re
 from itertools import chain
 
@@ -72,6 +73,20 @@ class Wikicode(StringMixIn):
             for child in code.nodes:
                 sub = Wikicode._get_children(child, contexts, restrict, code)
                 yield from sub
+
+    @staticmethod
+    def _instances(value):
+        """Yield *value*, then copies of it, for use at several places.
+
+        A string is parsed again wherever it is inserted, but a node or
+        Wikicode object put at two places would be one object shared by both.
+        """
+        yield value
+        while True:
+            if isinstance(value, (Node, Wikicode)):
+                yield copy.deepcopy(value)
+            else:
+                yield value
 
     @staticmethod
     def _slice_replace(code, index, old, new):
@@ -427,9 +442,10 @@ class Wikicode(StringMixIn):
             context, index = self._do_strong_search(obj, recursive)
             context.insert(index.start, value)
         else:
+            values = self._instances(value)
             for exact, context, index in self._do_weak_search(obj, recursive):
                 if exact:
-                    context.insert(index.start, value)
+                    context.insert(index.start, next(values))
                 else:
                     obj = str(obj)
                     self._slice_replace(
@@ -452,9 +468,10 @@ class Wikicode(StringMixIn):
             context, index = self._do_strong_search(obj, recursive)
             context.insert(index.stop, value)
         else:
+            values = self._instances(value)
             for exact, context, index in self._do_weak_search(obj, recursive):
                 if exact:
-                    context.insert(index.stop, value)
+                    context.insert(index.stop, next(values))
                 else:
                     obj = str(obj)
                     self._slice_replace(
@@ -479,11 +496,12 @@ class Wikicode(StringMixIn):
                 context.nodes.pop(index.start)
             context.insert(index.start, value)
         else:
+            values = self._instances(value)
             for exact, context, index in self._do_weak_search(obj, recursive):
                 if exact:
                     for _ in range(index.start, index.stop):
                         context.nodes.pop(index.start)
-                    context.insert(index.start, value)
+                    context.insert(index.start, next(values))
                 else:
                     self._slice_replace(
                         context, index, str(obj), str(parse_anything(value))
